@@ -52,6 +52,7 @@ Classes == DOMAIN TokenRepl
 \* one occurrence at a time (the n-th token of the class): what is done to it
 NthRepl(c) == IF c = "word" THEN {"none", "longline"} ELSE IF c = "digits" THEN {"none", "digits20"} ELSE {"none"}
 
+Literals == {"null", "array", "object", "quote", "zero", "true", "tilde", "lt", "dashes", "string"}
 NestKinds == {"json-array", "json-object", "xml", "yaml-indent", "toml-table", "toml-inline", "paren"}
 ZipFields == [lfh  |-> {"method", "crc", "csize", "usize", "namelen", "extralen"},
               cdh  |-> {"method", "csize", "usize", "namelen", "extralen", "commentlen", "offset"},
@@ -69,6 +70,8 @@ FineOps ==
   \cup UNION {{Op("ReplaceTokenClass", 0, 0, 0, c, r, s) : r \in TokenRepl[c], s \in Sels} : c \in Classes}
   \cup UNION {{Op("ReplaceTokenClass", n, 0, 0, c, r, "nth") : n \in Nth, r \in NthRepl(c)} : c \in Classes}
   \cup {Op("Empty", 0, 0, 0, "", "", "")}
+  \cup {Op("Literal", 0, 0, 0, l, "", "") : l \in Literals}                          \* the whole file is one degenerate document
+  \cup {Op("ValueLiteral", n, 0, 0, l, "", "") : n \in 0..7, l \in {"quote", "apos", "null", "empty"}}  \* the value of the n-th key=value / key: value line
   \cup {Op("WhitespaceOnly", 0, 0, 0, w, "", "") : w \in {"spaces", "newlines", "crlf-tabs"}}
   \cup {Op("Nest", n, 0, 0, k, m, "") : n \in NestDepths, k \in NestKinds, m \in {"bare", "wrap"}}
   \cup {Op("HeaderEdit", w, 0, 0, r, v, "") : w \in HeadWords, r \in {"head", "tail"}, v \in Vals}
@@ -91,8 +94,8 @@ CoarseOps ==
 
 \* operators that ignore what came before them make sense only in first position,
 \* and nothing is worth applying to an empty / whitespace-only file
-Absorbing(o) == o.op \in {"Empty", "WhitespaceOnly"} \/ (o.op = "Nest" /\ o.y = "bare")
-Terminal1(o) == o.op \in {"Empty", "WhitespaceOnly"}
+Absorbing(o) == o.op \in {"Empty", "WhitespaceOnly", "Literal"} \/ (o.op = "Nest" /\ o.y = "bare")
+Terminal1(o) == o.op \in {"Empty", "WhitespaceOnly", "Literal"}
 
 Outcomes == {"Returned"}   \* the only outcome class the specification admits
 
